@@ -257,3 +257,11 @@ Fixpoint mask_adjoint (flags : list bool) (y : list Q) : list Q :=
   | f :: fr => if f then 0 :: mask_adjoint fr y
                else match y with v :: yr => v :: mask_adjoint fr yr | [] => 0 :: mask_adjoint fr [] end
   end.
+
+(* apply_erf (parallax errors, sigma > 0): which treatment a sub-segment with mid-point distance `dist` gets
+     mask = dist > hi;                 wgt[mask] = 0.
+     mask = (dist > lo) & (dist <= hi); wgt[mask] *= erf((-1/dist[mask]+1/mid)/sig)
+   with lo = 1/(1/length + truncation*sigma) < length < hi = 1/(1/length - truncation*sigma).
+   0 = full weight, 1 = weighted by the survival function, 2 = dropped. *)
+Definition erf_regime (lo hi dist : Q) : nat :=
+  if Qle_bool dist hi then (if Qle_bool dist lo then 0%nat else 1%nat) else 2%nat.
